@@ -146,6 +146,9 @@ func goid() uint64 {
 
 // nowUs is the scenario clock of the trace: microseconds, or milliseconds when Millis is set (scenarios that span hours:
 // TLC integers are 32 bit).
+// NowUs: the scenario clock (for events that are logged later than they happened).
+func (w *Wire) NowUs() int64 { return w.nowUs() }
+
 func (w *Wire) nowUs() int64 {
 	if w.Millis {
 		return time.Since(w.start).Milliseconds()
